@@ -198,6 +198,8 @@ def decode(buf: BinaryStr, offset: int = 0) -> (list[memoryview], int):
         offset += size_len_comp + len_comp
         ret.append(buf[st:offset])
         length -= (offset - st)
+        if length < 0:
+            raise IndexError('name component exceeds the Name')
 
     return ret, offset - origin_offset
 
